@@ -28,8 +28,18 @@ func init() {
 var identCols = []string{"a", "b1", "c_x", "Zed"} // valid identifiers, byte-wise ascending: Zed < a < b1 < c_x
 
 func identDict(rng *rand.Rand, nvals int) *vx.Dict {
+	return identDictU(rng, nvals, false)
+}
+
+// identDictU: utf8Only leaves out byte strings that are not valid UTF-8 (protobuf string fields
+// cannot carry them; see the C13 known finding).
+func identDictU(rng *rand.Rand, nvals int, utf8Only bool) *vx.Dict {
 	cols := []string{"Zed", "a", "b1", "c_x"}
-	vals := vx.PickSorted(rng, []string{"", "x", "a\"b", "\"", "line\nbreak", "caf\xc3\xa9", "a b", "$1", ";", "0", "\xff"}, nvals, func(i int) string { return fmt.Sprintf("v%03d", i) })
+	pool := []string{"", "x", "a\"b", "\"", "line\nbreak", "caf\xc3\xa9", "a b", "$1", ";", "0"}
+	if !utf8Only {
+		pool = append(pool, "\xff")
+	}
+	vals := vx.PickSorted(rng, pool, nvals, func(i int) string { return fmt.Sprintf("v%03d", i) })
 	return vx.NewDict(cols, vals)
 }
 
